@@ -17,7 +17,11 @@ class Match(FilterFunction):
 
     def __call__(self, string: str, pattern: object) -> bool:
         """Return `True` if _string_ matches _pattern_, or `False` otherwise."""
-        if not isinstance(pattern, str) or not check(pattern):
+        try:
+            if not isinstance(pattern, str) or not check(pattern):
+                return False
+        except UnicodeEncodeError:
+            # An unpaired surrogate is not a Unicode scalar value, so not I-Regexp.
             return False
 
         try:
